@@ -882,6 +882,12 @@ func (ce *CEnv) evalCall(n *ast.CallExpr) (Val, error) {
 				out.C = append(out.C, UF("map."+typeKey(mt)+c.Path, c.Sort, m.C[0], kv.C[0]))
 			}
 			return out, nil
+		case "isenc":
+			a, err := ce.eval(n.Args[0])
+			if err != nil {
+				return Val{}, err
+			}
+			return bval(UF("ttlv.iserrencoding", BoolSort, a.C[0], a.C[1])), nil
 		case "erris":
 			a, err := ce.eval(n.Args[0])
 			if err != nil {
